@@ -945,6 +945,9 @@ pub fn family(name: &str, n: usize) -> String {
         "comb" => { let mut s = String::new(); for _ in 0..n / 2 { s.push_str("C(N)") } s.push('O'); s }
         "ringtail" => { let mut s = "C".repeat(n.saturating_sub(6)); s.push_str("C=1CCC(C/%12)C=1.C\\%12"); s }
         "bondchain" => { let mut s = String::from("C"); for i in 1..n { s.push_str(["=C", "-C", "#C", "C"][i % 4]) } s }
+        // every atom directly followed by a ring-closure digit, ring numbers re-used while another is open (valid: 4-atom blocks
+        // 0-1, 1-2, 2-3, 0-2, 1-3, chained); no parentheses, no dots
+        "ladder" => "C1C2C1C2".repeat((n / 4).max(1)),
         "singlechain" => { let mut s = String::from("C"); for _ in 1..n { s.push_str("-C") } s }
         "dirchain" => { let mut s = String::from("C"); for i in 1..n { s.push_str(if i % 2 == 1 { "/C" } else { "=C" }) } s }
         // two ring closures open at the same time whose atom ids straddle 16 bits: 1-5 (opened at atom 5, closed at atom 1
@@ -969,7 +972,7 @@ pub fn family(name: &str, n: usize) -> String {
 
 fn depth<W: Write>(thorough: bool, out: &mut W) {
     let sizes: &[usize] = if thorough { &[1, 2, 3, 10, 100, 1000, 5000, 12000] } else { &[1, 2, 3, 10, 100, 1000, 5000] };
-    for fam in ["chain", "dots", "branches", "ringlist", "ringchain", "digits"] {
+    for fam in ["chain", "dots", "branches", "ringlist", "ringchain", "digits", "ladder"] {
         for &n in sizes { read_req(out, &family(fam, n)) }
     }
     for fam in ["nested", "nested2"] { for &n in [1usize, 2, 3, 10, 50, 200].iter() { read_req(out, &family(fam, n)) } }
